@@ -35,6 +35,11 @@ impl Session {
     }
 
     pub fn abort_transaction(&mut self) -> QueryRunnerResult<()> {
+        // Nothing to roll back (or to log) once the transaction has committed or aborted;
+        // in particular `Drop` calls this after a successful commit.
+        if !self.ctx.is_open() {
+            return Ok(());
+        }
         self.logger.log_abort()?;
         self.ctx.abort_transaction()?;
         self.logger.log_end()?;
